@@ -128,6 +128,16 @@ Fixpoint merge_tree (fl : flags) (q : nearsql) : option nearsql :=
       match merge_tree fl s with Some s' => Some (NRaw1 n p s' ci sfx an a k) | None => None end
   end.
 
+(* ------------------------------------------------------------------ where the declared dependencies come from *)
+(* extend_to_near_sql, before the merge test: every column passed through depends on itself; every assigned column on the
+   columns its expression mentions (oi.get_column_names) and on the window's columns, `window_vars` = partition_by and
+   order_by (ascending and reversed alike: reversal is only a DESC in the text).
+     demand  : the demanded columns after `using.union(partition_by, order_by, reverse)`, in order
+     subops  : the assignments kept (name, columns the expression mentions), in order *)
+Definition declared_deps (demand : list string) (subops : list (string * list string)) (partition order : list string) : depmap :=
+  map (fun k => (k, [k])) (filter (fun k => negb (mem k (map fst subops))) demand)
+  ++ map (fun ke => (fst ke, snd ke ++ partition ++ order)) subops.
+
 (* ------------------------------------------------------------------ meaning of a SELECT list over columns *)
 (* V = whatever a column is (a list of values, one per row of the sub-query).  The opaque SQL expression text e denotes
    `tsem e f` on the columns f of the sub-query (row-wise expressions and window functions alike: f carries whole columns). *)
